@@ -16,9 +16,11 @@ const LOOMH: &str = "/verif/target/loom/loomh.bin";
 
 pub fn jobs(prop: &str, _tier: Tier) -> Vec<(String, u64)> {
     match prop {
-        "C04" => vec![("loom:runner".into(), 16)],
-        "C16" => vec![("loom:runner".into(), 16), ("loom:fancy".into(), 16)],
-        "C20" => vec![("loom:fancy".into(), 16)],
+        // (few shards: loom maps and unmaps a stack per modelled thread and
+        // execution, which scales badly over many processes at once)
+        "C04" => vec![("loom:runner".into(), 6)],
+        "C16" => vec![("loom:runner".into(), 6), ("loom:fancy".into(), 6)],
+        "C20" => vec![("loom:fancy".into(), 8)],
         _ => vec![],
     }
 }
@@ -26,17 +28,21 @@ pub fn jobs(prop: &str, _tier: Tier) -> Vec<(String, u64)> {
 /// (scenario text, preemption bound or "none").
 fn runner_scenarios(tier: Tier) -> Vec<(String, String)> {
     let mut v = Vec::new();
-    let two: &[&str] = &["0", "1", "2", "1h", "1f", "1m", "2m", "1i", "0f"];
-    // Two tasks: unbounded exploration.
+    let two: &[&str] = &["0", "1", "2", "1h", "1f", "1m", "2m", "1i", "0f", "1d"];
+    // Two tasks: preemption bound 3 in the quick tier (on the current code that
+    // is already every interleaving: the unbounded search visits the same
+    // 10-150 executions), unbounded in the thorough tier.  The bound keeps the
+    // quick tier quick should the Runner grow shared atomics, where an
+    // unbounded search multiplies by orders of magnitude.
     for p in [1, 2] {
         for (i, a) in two.iter().enumerate() {
             for b in two.iter().skip(i) {
-                v.push((format!("{};{};{}", p, a, b), "none".to_string()));
+                v.push((format!("{};{};{}", p, a, b), tier.pick("3", "none").to_string()));
             }
         }
     }
     // Three tasks at -j2 (the third starts after the first wait) and at -j3.
-    let three: &[&str] = tier.pick(&["0", "1", "1h", "1f"][..], &["0", "1", "2", "1h", "1f", "1m"][..]);
+    let three: &[&str] = tier.pick(&["0", "1", "1h", "1f", "0d"][..], &["0", "1", "2", "1h", "1f", "1m", "1d"][..]);
     for p in [2, 3] {
         for a in three {
             for b in three {
@@ -46,6 +52,17 @@ fn runner_scenarios(tier: Tier) -> Vec<(String, String)> {
                     }
                     v.push((format!("{};{};{};{}", p, a, b, c), tier.pick("2", "3").to_string()));
                 }
+            }
+        }
+    }
+    // Four tasks with one slot given back in an unusual way (failure, unreadable
+    // depfile) early on: is it given back exactly once?
+    for p in [2, 3] {
+        for first in ["0d", "0f", "0"] {
+            for pos in 0..2 {
+                let mut t = vec!["0", "0", "0", "0"];
+                t[pos] = first;
+                v.push((format!("{};{}", p, t.join(";")), "2".to_string()));
             }
         }
     }
@@ -120,12 +137,24 @@ fn fancy_scenarios(tier: Tier) -> Vec<(String, String)> {
     v
 }
 
-fn run_one(engine: &str, scenario: &str, bound: &str) -> Result<Value, String> {
-    let out = Command::new(LOOMH)
+fn run_one(engine: &str, scenario: &str, bound: &str, cap_secs: u64) -> Result<Value, String> {
+    let mut out = Command::new(LOOMH);
+    let out = out
         .arg(engine)
         .arg(scenario)
         .arg(bound)
-        .env("RUST_BACKTRACE", "0")
+        .arg(cap_secs.to_string())
+        .env("RUST_BACKTRACE", "0");
+    // The harness process must not outlive this worker (the parent kills a
+    // worker whose case takes too long).
+    use std::os::unix::process::CommandExt;
+    let out = unsafe {
+        out.pre_exec(|| {
+            libc::prctl(libc::PR_SET_PDEATHSIG, libc::SIGKILL);
+            Ok(())
+        })
+    };
+    let out = out
         .output()
         .map_err(|e| format!("cannot run {}: {}", LOOMH, e))?;
     let err = String::from_utf8_lossy(&out.stderr).to_string();
@@ -134,8 +163,18 @@ fn run_one(engine: &str, scenario: &str, bound: &str) -> Result<Value, String> {
             return serde_json::from_str(j).map_err(|e| format!("bad harness line {:?}: {}", line, e));
         }
     }
-    // No verdict line: the harness died (loom aborts the process on some
-    // failures, e.g. a panic while another thread is being unwound).
+    // No verdict line: the harness died (loom aborts the process when its own
+    // objects are dropped during the unwinding of a failed execution).  The
+    // first panic line still carries the failed invariant.
+    for line in err.lines() {
+        if let Some(rest) = line.split("loomh invariant ").nth(1) {
+            let (key, detail) = rest.split_once(": ").unwrap_or((rest, ""));
+            return Ok(json!({
+                "engine": engine, "scenario": scenario, "iterations": 0, "distinct": 0, "ok": false,
+                "key": key, "detail": format!("{} (the harness process aborted while unwinding)", detail), "sample": ""
+            }));
+        }
+    }
     Ok(json!({
         "engine": engine, "scenario": scenario, "iterations": 0, "distinct": 0, "ok": false,
         "key": "harness-died",
@@ -163,7 +202,8 @@ pub fn run(ctx: &mut Ctx) -> ShardResult {
             continue;
         }
         ctx.marker.set(idx, format!("{} {} {}", engine, scn, bound).as_bytes());
-        let v = match run_one(&engine, scn, bound) {
+        let cap_secs = ctx.tier.pick(20, 240);
+        let v = match run_one(&engine, scn, bound, cap_secs) {
             Ok(v) => v,
             Err(e) => panic!("loom harness: {}", e),
         };
@@ -178,6 +218,10 @@ pub fn run(ctx: &mut Ctx) -> ShardResult {
             res.count("loom_scenarios_unbounded", 1);
         }
         res.max_depth = res.max_depth.max(scn.len() as u64);
+        if v["capped"].as_bool() == Some(true) {
+            // Not a verdict on anything beyond what was explored: reported as a cap.
+            res.caps.push(format!("loom {} scenario {:?} (preemption bound {}) stopped at the {} s wall cap after {} interleavings", engine, scn, bound, cap_secs, iterations));
+        }
         if v["ok"].as_bool() == Some(true) {
             res.nontrivial += distinct;
             if distinct >= 2 {
